@@ -17,7 +17,7 @@ theorem findSome?_all_eq {α β : Type} (f : α → Option β) (a : α) (y : β)
   | cons x xs =>
     have : x = a := hall x (by simp)
     subst this
-    simp [List.findSome?_cons, hfa]
+    simp [hfa]
 
 theorem lookupIn_holds (b : Block) (id : FID) (e : Entry) (h : Holds b id e) : lookupIn b id = some (b, e) := by
   have hff : findFirst b.entries id.val = some e := by
@@ -59,6 +59,20 @@ theorem lookup_of_unique (ix : Index) (id : FID) (n : Nat) (hn : nsEncode ix.nt 
 
 /-! ## what `Accepts` says about one feature -/
 
+theorem invertTag_ok (x : FTag) (hx : x.val.ok = true) : (invertTag x).val.ok = true := by
+  obtain ⟨k, v⟩ := x
+  cases v with
+  | list l =>
+    simp only [invertTag]
+    split
+    · simp only [Val.ok, List.all_eq_true] at hx ⊢
+      intro e he
+      exact hx e (List.mem_reverse.mp he)
+    · exact hx
+  | str s => exact hx
+  | pt p => exact hx
+  | fid i => exact hx
+
 theorem invertTags_ok : ∀ ts : List FTag, (∀ t ∈ ts, t.val.ok = true) → ∀ t ∈ invertTags ts, t.val.ok = true := by
   intro ts
   induction ts with
@@ -68,21 +82,7 @@ theorem invertTags_ok : ∀ ts : List FTag, (∀ t ∈ ts, t.val.ok = true) → 
     unfold invertTags at ht
     split at ht
     · rcases List.mem_cons.mp ht with rfl | ht'
-      · have hx := h x (by simp)
-        unfold invertTag
-        cases hv : x.val with
-        | list l =>
-          simp only [hv]
-          split
-          · simp only [Val.ok, List.all_eq_true] at hx ⊢
-            rw [hv] at hx
-            simp only [Val.ok, List.all_eq_true] at hx
-            intro e he
-            exact hx e (List.mem_reverse.mp he)
-          · exact hx
-        | str s => simp only [hv]; exact hx
-        | pt p => simp only [hv]; exact hx
-        | fid i => simp only [hv]; exact hx
+      · exact invertTag_ok x (h x (by simp))
       · exact h t (by simp [ht'])
     · rcases List.mem_cons.mp ht with rfl | ht'
       · exact h t (by simp)
